@@ -17,8 +17,11 @@ from concurrent.futures import ProcessPoolExecutor
 from . import engine, sched, workload, nmfu_child, cbuild, oracles
 
 VERIF = os.path.dirname(os.path.dirname(os.path.abspath(__file__)))
-EVID = os.path.join(VERIF, "evidence")
-REPLAYS = os.path.join(VERIF, "replays")
+# NMFU_VERIF_OUT redirects evidence and replay files (used when a check is pointed at a scratch tree:
+# what it finds there says nothing about /repo and must not overwrite /verif/evidence)
+_OUT = os.environ.get("NMFU_VERIF_OUT") or VERIF
+EVID = os.path.join(_OUT, "evidence")
+REPLAYS = os.path.join(_OUT, "replays")
 KNOWN = os.path.join(VERIF, "known_findings.json")
 
 COMPONENTS = {
@@ -113,10 +116,68 @@ def load_known():
         return {"findings": [], "fixed": []}
 
 
+def _block_after(src, i):
+    """text of the {...} block starting at the first '{' at or after i, and the index after it"""
+    j = src.find("{", i)
+    if j < 0:
+        return None, len(src)
+    depth = 0
+    k = j
+    in_str = False
+    while k < len(src):
+        c = src[k]
+        if in_str:
+            if c == "\\":
+                k += 1
+            elif c == '"':
+                in_str = False
+        elif c == '"':
+            in_str = True
+        elif c == "{":
+            depth += 1
+        elif c == "}":
+            depth -= 1
+            if depth == 0:
+                return src[j + 1:k], k + 1
+        k += 1
+    return None, len(src)
+
+
+def full_string_appended_in_oos_try_body(f):
+    """
+    The recorded C04 finding is the spin through the overflow redirect of an append that sits in the
+    *body* of a try whose catch handles outofspace: the string that is full when the call stops
+    making progress must be appended to inside such a try body.
+    """
+    m = re.search(r"full=([\w,]+)", f.get("detail", ""))
+    if not m:
+        return False
+    names = [n for n in m.group(1).split(",") if n and n != "-"]
+    src = f.get("ctx", {}).get("source", "")
+    for t in re.finditer(r"\btry\b", src):
+        body, end = _block_after(src, t.end())
+        if body is None:
+            continue
+        c = re.match(r"\s*catch\s*(\(([^)]*)\))?", src[end:])
+        if not c:
+            continue
+        if c.group(2) is not None and "outofspace" not in c.group(2):
+            continue
+        for n in names:
+            if re.search(r"\b%s\s*\+=" % re.escape(n), body):
+                return True
+    return False
+
+
+PREDICATES = {"full-string-appended-in-oos-try-body": full_string_appended_in_oos_try_body}
+
+
 def known_match(entry, prop, f):
     if entry.get("property") != prop:
         return False
     m = entry.get("match", {})
+    if "predicate" in m and not PREDICATES[m["predicate"]](f):
+        return False
     if "oracle" in m and f["oracle"] not in (m["oracle"] if isinstance(m["oracle"], list) else [m["oracle"]]):
         return False
     if "kind" in m and f["kind"] != m["kind"]:
